@@ -705,6 +705,11 @@ fn judge(prop: &str, it: &Item, scen: &Scenario, w: &World, eo: &ExecOut, counts
                     v.push((format!("missing-not-enoent:{}", if o.ok { "ok".into() } else { errname(o.errno.unwrap_or(-1)) }), format!("lookup of a path that does not exist reported {} ({}) instead of ENOENT", outcome_text(w, eo, 0), o.msg.clone().unwrap_or_default().chars().take(160).collect::<String>())));
                 }
                 if !eo.faults.is_empty() && o.ok && scen.path == "missing" { v.push(("missing-found".into(), "lookup of a path that does not exist succeeded".into())); }
+                // "true errors": an entry that exists but is hidden by the mount options of the /proc at hand must not be reported
+                // as missing to a caller that is able to get a full private procfs (root with capabilities)
+                if scen.path == "masked" && scen.op.name != "proc_readlink" && !it.unpriv && eo.faults.is_empty() && o.panic.is_none() && !o.ok && o.errno == Some(libc::ENOENT) && scen.op.path.as_deref() != Some("1/nonexistent") {
+                    v.push(("existing-reported-missing".into(), format!("privileged lookup of an existing but masked entry reported ENOENT ({})", o.msg.clone().unwrap_or_default().chars().take(160).collect::<String>())));
+                }
             }
         }
         return Ok(v);
@@ -857,7 +862,7 @@ pub fn run_item(prop: &str, tier: &str, idx: usize, only: Option<&Value>) -> MRe
     if let Some(o) = only {
         let scen: Scenario = match o.get("bundle_index").and_then(|x| x.as_u64()) { Some(i) => it.bundle[i as usize].clone(), None => it.scen.clone() };
         let mut ch = Chooser::new(forced_from_json(&o["choices"]));
-        let (vs, otext) = one(&scen, &mut ch, &mut res, false, &mut counts)?;
+        let (vs, otext) = one(&scen, &mut ch, &mut res, true, &mut counts)?;
         println!("outcome: {}", otext);
         for (k, d) in vs { res.violate(vkey(prop, &scen, &k), d, o.clone()); }
         return Ok(res);
@@ -867,7 +872,13 @@ pub fn run_item(prop: &str, tier: &str, idx: usize, only: Option<&Value>) -> MRe
         // sweep: independent single executions
         for (bi, scen) in it.bundle.iter().enumerate() {
             let mut ch = Chooser::new(vec![]);
-            let (vs, _) = one(scen, &mut ch, &mut res, false, &mut counts)?;
+            let mut attempt = 0;
+            let (vs, _) = loop {
+                match one(scen, &mut ch, &mut res, false, &mut counts) {
+                    Err(Mach(m)) if m.starts_with("NOISE") && attempt < 60 => { attempt += 1; ch = Chooser::new(vec![]); }
+                    r => break r?,
+                }
+            };
             for (k, d) in vs {
                 res.violate(vkey(prop, scen, &k), d, json!({"engine": "sysmc", "item": idx, "bundle_index": bi, "scenario": scen.name, "choices": []}));
             }
